@@ -117,7 +117,7 @@ def build(case):
 
 class DeviceSub(Sub):
     name = "device"
-    budget = {"quick": 5000, "thorough": 60000}
+    budget = {"quick": 10000, "thorough": 150000}
     rule = ("host BFM drives 1..3 CS assertions of 0..5 words (+ optional partial trailing word) with per-half-period "
             "SCK jitter over all word sizes 1..24 x cpol x cpha x bit order x CS polarity; oracle derives the "
             "expected words from the bits the host put on SDI at its own sample edges and checks one word_complete "
@@ -148,7 +148,7 @@ class DeviceSub(Sub):
             gap=st.integers(2, 5), lead=st.integers(1, 4), trail=st.integers(1, 4), sdid=st.integers(0, 3),
         ))
         return st.fixed_dictionaries(dict(
-            ws=weighted([(w, 3 if w & (w - 1) else 1) for w in (8, 3, 5, 12, 2, 6, 7, 9, 10, 24, 1, 4, 11, 13, 14, 15,
+            ws=weighted([(w, 3 if w & (w - 1) else 2) for w in (8, 3, 5, 12, 2, 6, 7, 9, 10, 24, 1, 4, 11, 13, 14, 15,
                                                                16, 17, 18, 19, 20, 21, 22, 23)]),
             cpol=st.integers(0, 1), cpha=weighted([(1, 2), (0, 1)]), msb=weighted([(1, 2), (0, 1)]),
             csh=weighted([(0, 3), (1, 1)]),
